@@ -48,11 +48,15 @@ theorem C18_finder_types :
       = ["PX", "PY", "PZ", "C/X", "C/Y", "C/Z", "CX", "CY", "CZ"] := by decide
 
 /-- the base class's `Surface.find_duplicate_surfaces` — run by every built class that does not override it (the MRO
-    of the code: `Surface` itself and `GeneralPlane`, i.e. SO, S, P, K/Z, X, GQ, …) — is the `return []` the model's
-    `findDuplicateSurfaces` has for the classes `.surface` / `.generalPlane`; and a built class runs the base class's
-    finder exactly when it is not one of the three modelled finder classes (which run their own).  A source edit of the base finder re-opens this. -/
+    of the code: `Surface` itself and `GeneralPlane`, i.e. SO, S, P, K/Z, X, GQ, …) — behaves as the `[]` the model's
+    `findDuplicateSurfaces` has for the classes `.surface` / `.generalPlane`: the translator called it on probe
+    surfaces of every such mnemonic and number of constants (identical, nearly equal, longer/shorter, reflecting
+    cards; three tolerances) and no call returned anything but the empty list (round 7: observed, where the first
+    version compared the spelling of the body with "return []"); and a built class runs the base class's finder
+    exactly when it is not one of the three modelled finder classes (which run their own).  A change of what the base
+    finder returns re-opens this. -/
 theorem C18_base_finder_modelled :
-    Gen.Dedupe.baseFinderBody = "return []"
+    (0 < Gen.Dedupe.baseFinderProbes ∧ Gen.Dedupe.baseFinderFound = [] ∧ Gen.Dedupe.baseFinderFoundCount = 0)
       ∧ ∀ r ∈ Gen.Dedupe.finderProviders,
           (r.2 = r.1 ∨ r.2 = "Surface") ∧ (isFinder (SClass.ofName r.1) = false ↔ r.2 = "Surface") := by
   decide
